@@ -87,6 +87,7 @@ structure St where
   ncb : Nat                   -- registered state-change callbacks
   closing : Bool := false     -- `_disconnecting`
   tup : Bool := false         -- transport.transport is not None
+  sinit : Bool := false       -- secure session: `initialized` (only then may frames other than SessionRequest be sent)
   chan : Option Nat := none   -- communication_channel
   hb : Option Nat := none     -- generation of the running heartbeat task
   cm : CS := .D               -- ConnectionManager._state
@@ -101,7 +102,7 @@ structure St where
   nextR : Nat := 0
   nextHb : Nat := 0
   nextI : Nat := 0
-  cbq : List Obs := []        -- callbacks owed by the ConnectionManager (strictly next)
+  cbq : List (Tag × Nat × CS) := []  -- callbacks owed by the ConnectionManager: (task, callback index, state), strictly next
   pend : List Obs := []       -- rest of the running synchronous segment (strictly next)
   mayClose : Bool := false    -- a SESSION_STATUS close may follow the `tstop` just seen
   closeTag : Tag := .x
@@ -113,6 +114,9 @@ def init (kind : Kind) (auto : Bool) (ncb : Nat) : St := { kind, auto, ncb }
 
 /-- "a tunnel is established" as the client knows it. -/
 def est (s : St) : Bool := s.chan.isSome && s.tup && s.hb.isSome
+
+/-- `transport.send` of a tunnelling-level frame succeeds. -/
+def canSend (s : St) : Bool := s.tup && (s.kind != .secure || s.sinit)
 
 def rOK (s : St) : Bool :=
   match s.rt with
@@ -138,7 +142,7 @@ def matchObs (p o : Obs) : Bool := p.tag == o.tag && labMatch p.lab o.lab
 /-- `ConnectionManager._connection_state_changed` called from task `t`. -/
 def notifyEff (s : St) (t : Tag) (st : CS) : St :=
   if s.cm == st then s
-  else { s with cm := st, conn := st == .C, cbq := (List.range s.ncb).map fun i => ⟨t, .cb i st⟩ }
+  else { s with cm := st, conn := st == .C, cbq := (List.range s.ncb).map fun i => (t, i, st) }
 
 /-- What `_tunnel_lost()` does, as the token sequence that has to follow. -/
 def lostSeq (s : St) (t : Tag) : List Obs :=
@@ -187,7 +191,7 @@ def act (s : St) (o : Obs) (fp : Bool) : Option St :=
       some { notifyEff s t .D with pend := failTail t }
     else none
   | .cb _ _ => none
-  | .tconnect => if fp then some s else none
+  | .tconnect => if fp && inConn s t then some s else none
   | .tconnected =>
     if !fp && inConn s t then some { s with tup := true, pend := [⟨t, .frame (connectFrame s) 0⟩] } else none
   | .tconnfail =>
@@ -195,9 +199,10 @@ def act (s : St) (o : Obs) (fp : Bool) : Option St :=
   | .tstop b =>
     if b != s.tup then none
     else
-      let s1 := { s with tup := false, mayClose := b && s.kind == .secure, closeTag := t }
+      let s1 := { s with tup := false, sinit := false, mayClose := b && s.kind == .secure, closeTag := t }
       if fp then
-        some (if t == .d then { s1 with chan := none } else s1)
+        some (if t == .d || (t == .r && (match s.rt with | some r => r.pc == 1 | none => false))
+              then { s1 with chan := none } else s1)
       else if t == .d then
         if s.dWait then some { s1 with dWait := false, chan := none, pend := [⟨.d, .ret .disconnect⟩] } else none
       else if t == .r then
@@ -213,7 +218,7 @@ def act (s : St) (o : Obs) (fp : Bool) : Option St :=
     else match f with
       | .creq => if fp || (inConn s t && s.kind == .secure) then some s else none
       | .sreq => if fp then some s else none
-      | .sauth => if !fp && inConn s t && s.kind == .secure then some s else none
+      | .sauth => if !fp && inConn s t && s.kind == .secure then some { s with sinit := true } else none
       | .csreq => if !fp && t == .h && s.chan == some ch then some s else none
       | .treq => if !fp && t == .s && s.chan == some ch then some s else none
       | .tack => if fp then some s else none
@@ -277,7 +282,7 @@ def act (s : St) (o : Obs) (fp : Bool) : Option St :=
                          pend := ⟨.r, .notify .D⟩ ::
                            (if s.tup then
                               match s.chan with
-                              | some ch => [⟨.r, .frame .dreq ch⟩]
+                              | some ch => if canSend s then [⟨.r, .frame .dreq ch⟩] else [⟨.r, .tstop true⟩]
                               | none => [⟨.r, .tstop true⟩]
                             else []) }
         else none
@@ -289,7 +294,7 @@ def act (s : St) (o : Obs) (fp : Bool) : Option St :=
                     rt := s.rt.map fun r => { r with cancelReq := true },
                     pend := [⟨.d, .prep⟩, ⟨.d, .notify .D⟩] ++
                       (match s.chan with
-                       | some ch => if s.tup then [⟨.d, .frame .dreq ch⟩]
+                       | some ch => if canSend s then [⟨.d, .frame .dreq ch⟩]
                                     else [⟨.d, .tstop false⟩, ⟨.d, .ret .disconnect⟩]
                        | none => [⟨.d, .tstop false⟩, ⟨.d, .ret .disconnect⟩]) }
     else none
@@ -298,7 +303,9 @@ def act (s : St) (o : Obs) (fp : Bool) : Option St :=
     match w with
     | .connectOk => if fp then some { s with cRun := false } else none
     | .connectErr => if fp then some { s with cRun := false } else none
-    | .disconnect => if fp then some { s with dRun := false, udone := true } else none
+    | .disconnect =>
+      -- (transport closed and no DisconnectResponse awaited any more: re-checked here, it is what `finally: transport.stop()` gives)
+      if fp && !s.tup && !s.dWait then some { s with dRun := false, udone := true, pend := [] } else none
     | .send => if !fp && t == .s then some s else none
   | .rxCresp o =>
     if fp || t != .x || !s.tup then none
@@ -331,7 +338,7 @@ def act (s : St) (o : Obs) (fp : Bool) : Option St :=
 /-- The monitor. -/
 def step? (s : St) (o : Obs) : Option St :=
   match s.cbq with
-  | q :: qs => if q == o then some { s with cbq := qs } else none
+  | q :: qs => if o == ⟨q.1, .cb q.2.1 q.2.2⟩ then some { s with cbq := qs } else none
   | [] =>
     if s.mayClose && o.tag == s.closeTag && o.lab == .frame .sclose 0 then
       some { s with mayClose := false }
@@ -413,6 +420,63 @@ def parseObs (tok : String) : Option Obs :=
   | t :: rest => do some ⟨← parseTag t, ← parseLab rest⟩
   | [] => none
 
+
+/-! ### ConnectionManager on its own (mode F): register / unregister / one-shot callbacks / state changes -/
+namespace CM
+
+inductive Op where
+  | reg (k : Nat) (oneshot : Bool)
+  | unreg (k : Nat)
+  | change (st : CS)
+  deriving DecidableEq, Repr
+
+structure S where
+  cur : CS := .D
+  regs : List (Nat × Bool) := []   -- in registration order; (key, unregisters itself when called)
+  deriving Repr
+
+/-- One operation; the output of a `change` is the list of callbacks invoked, in order
+(`_connection_state_changed` iterates over a snapshot of the list). -/
+def step (s : S) : Op → S × Option (CS × Bool × List Nat)
+  | .reg k o => ({ s with regs := s.regs ++ [(k, o)] }, none)
+  | .unreg k => ({ s with regs := s.regs.eraseP (fun e => e.1 == k) }, none)
+  | .change st =>
+    if s.cur == st then (s, some (st, st == .C, []))
+    else ({ cur := st, regs := s.regs.filter (fun e => !e.2) }, some (st, st == .C, s.regs.map (·.1)))
+
+def run : S → List Op → List (CS × Bool × List Nat)
+  | _, [] => []
+  | s, o :: os =>
+    match step s o with
+    | (s', some out) => out :: run s' os
+    | (s', none) => run s' os
+
+def csName : CS → String
+  | .D => "D" | .G => "G" | .C => "C"
+
+def parseOp (t : String) : Option Op :=
+  match t.toList with
+  | 'r' :: ds => (String.ofList ds).toNat?.map (.reg · false)
+  | 'o' :: ds => (String.ofList ds).toNat?.map (.reg · true)
+  | 'u' :: ds => (String.ofList ds).toNat?.map .unreg
+  | ['D'] => some (.change .D)
+  | ['G'] => some (.change .G)
+  | ['C'] => some (.change .C)
+  | _ => none
+
+def render (o : CS × Bool × List Nat) : String :=
+  csName o.1 ++ (if o.2.1 then "1" else "0") ++ ":" ++
+    (if o.2.2.isEmpty then "-" else ".".intercalate (o.2.2.map toString))
+
+def handle (ops : String) : String :=
+  match (ops.splitOn ",").mapM parseOp with
+  | some l =>
+    let outs := run {} l
+    if outs.isEmpty then "-" else " ".intercalate (outs.map render)
+  | none => "bad-op"
+
+end CM
+
 def parseKindK : String → Option Kind
   | "udp" => some .udp | "tcp" => some .tcp | "secure" => some .secure | _ => none
 
@@ -429,6 +493,7 @@ def handle : List String → String
         | some i => s!"reject {i} {toks.getD i "?"}"
       | none => "bad-token " ++ ((toks.find? fun t => (parseObs t).isNone).getD "?")
     | _, _, _ => "bad-op"
+  | ["cm", ops] => CM.handle ops
   | _ => "bad-op"
 
 end XknxVerif.TunnelLifecycle
